@@ -85,6 +85,11 @@ func c11Child() {
 	for i := 0; i < 300; i++ {
 		must(idx.Index(fmt.Sprintf("p%d", i), map[string]interface{}{"body": strings.Repeat("lorem ipsum dolor ", 1+i%5), "n": float64(i)}))
 	}
+	// the engine object behind the index: forced merges go to it directly, also after Close
+	var engine0 *scorch.Scorch
+	if adv, err := idx.Advanced(); err == nil {
+		engine0, _ = adv.(*scorch.Scorch)
+	}
 	var seq int64
 	next := func() int64 { return atomic.AddInt64(&seq, 1) }
 	var wg sync.WaitGroup
@@ -116,7 +121,7 @@ func c11Child() {
 					return
 				default:
 				}
-				switch rr.Intn(12) {
+				switch rr.Intn(13) {
 				case 0, 1:
 					call(g, k, "index", func() error {
 						return idx.Index(fmt.Sprintf("g%d-%d", g, rr.Intn(40)), map[string]interface{}{"body": "alpha beta " + fmt.Sprint(k), "n": float64(k)})
@@ -164,7 +169,7 @@ func c11Child() {
 					})
 				case 10:
 					call(g, k, "stats", func() error { _ = idx.StatsMap(); _ = idx.Stats(); return errVoid })
-				case 11:
+				case 11, 12:
 					if engine == "scorch-disk" && rr.Chance(50) {
 						call(g, k, "copyto", func() error {
 							d := filepath.Join(dir, fmt.Sprintf("bk-%d-%d", g, k))
@@ -175,23 +180,15 @@ func c11Child() {
 							}
 							return ic.CopyTo(bleve.FileSystemDirectory(d))
 						})
-					} else if engine == "scorch-disk" || engine == "scorch-mem" {
+					} else if engine0 != nil {
 						call(g, k, "forcemerge", func() error {
-							adv, err := idx.Advanced()
-							if err != nil {
-								return err
-							}
-							sc, ok := adv.(*scorch.Scorch)
-							if !ok {
-								return nil
-							}
 							ctx, cancel := context.WithTimeout(context.Background(), 500*time.Millisecond)
 							defer cancel()
 							// below the bleve.Index API: the engine's own ForceMerge has no closed-index error
-							if err = sc.ForceMerge(ctx, nil); err == nil {
-								return errVoid
+							if err := engine0.ForceMerge(ctx, nil); err != nil {
+								return err
 							}
-							return err
+							return errVoid
 						})
 					}
 				}
@@ -234,7 +231,18 @@ func c11Child() {
 	// calls keep coming after Close returned
 	time.Sleep(15 * time.Millisecond)
 	close(stopAll)
-	wg.Wait()
+	wdone := make(chan struct{})
+	go func() { wg.Wait(); close(wdone) }()
+	select {
+	case <-wdone:
+		logL("calls-returned yes")
+	case <-time.After(20 * time.Second):
+		logL("calls-returned no")
+		buf := make([]byte, 1<<20)
+		n := runtime.Stack(buf, true)
+		fmt.Fprintf(os.Stderr, "A CALL NEVER RETURNED\n%s\n", buf[:n])
+		os.Exit(8)
+	}
 	// background work must stop
 	leaked := 0
 	for i := 0; i < 40; i++ {
@@ -294,6 +302,12 @@ func runC11(t *Trace, r *Rng, tier string, _ []string) {
 		case strings.Contains(es, "DATA RACE"):
 			i := strings.Index(es, "DATA RACE")
 			t.Emit(engine+"/race", true, "echo ok", "data-race:"+strings.ReplaceAll(oneLine(es[i:]), " ", "_"))
+		case strings.Contains(es, "A CALL NEVER RETURNED"):
+			j := strings.Index(es, "ForceMerge")
+			if j < 0 {
+				j = 0
+			}
+			t.Emit(engine+"/calls-return", true, "echo ok", "a-call-never-returned:"+strings.ReplaceAll(oneLine(es[j:]), " ", "_"))
 		case strings.Contains(es, "CLOSE DID NOT RETURN"):
 			t.Emit(engine+"/close-returns", true, "echo ok", "close-did-not-return:"+strings.ReplaceAll(oneLine(es), " ", "_"))
 		case werr != nil:
@@ -315,7 +329,7 @@ func runC11(t *Trace, r *Rng, tier string, _ []string) {
 			case strings.HasPrefix(l, "call "):
 				f := strings.Fields(l)
 				t.Emit(engine+"/call-"+f[2], true, l, "ok")
-			case strings.HasPrefix(l, "closed-in-time"), strings.HasPrefix(l, "goroutines-left"):
+			case strings.HasPrefix(l, "closed-in-time"), strings.HasPrefix(l, "goroutines-left"), strings.HasPrefix(l, "calls-returned"):
 				t.Emit(engine+"/"+strings.Fields(l)[0], true, l, "ok")
 			}
 		}
